@@ -20,6 +20,7 @@ import (
 	"go/token"
 	"os"
 	"path/filepath"
+	"sort"
 	"strconv"
 	"strings"
 )
@@ -620,6 +621,22 @@ func main() {
 	if err := json.Unmarshal(raw, &specs); err != nil {
 		fmt.Fprintln(os.Stderr, "spec:", err)
 		os.Exit(2)
+	}
+	// further fragment lists, one file per property: <spec without .json>.d/*.json (sorted by name)
+	more, _ := filepath.Glob(filepath.Join(strings.TrimSuffix(*specPath, ".json")+".d", "*.json"))
+	sort.Strings(more)
+	for _, f := range more {
+		raw, err := os.ReadFile(f)
+		if err != nil {
+			fmt.Fprintln(os.Stderr, err)
+			os.Exit(2)
+		}
+		var extra []spec
+		if err := json.Unmarshal(raw, &extra); err != nil {
+			fmt.Fprintln(os.Stderr, "spec", f+":", err)
+			os.Exit(2)
+		}
+		specs = append(specs, extra...)
 	}
 	var b strings.Builder
 	b.WriteString("/- GENERATED by /verif/extract/gotolean from /repo's working tree. Do not edit. -/\nnamespace MosVerif.Translated\n\n")
